@@ -273,6 +273,7 @@ def r_dlink(ctx, prog):
         tt = Terms(f, forward=True)      # forwarded: "e->left = m->next_free" must see the OLD head of the free list
         e = ('param', 1)
         un = set()
+        un_stores = {}
         push = False
         nf = False
         for i in f.all_insts():
@@ -284,6 +285,7 @@ def r_dlink(ctx, prog):
             if a[0] == 'field' and a[1][0] in ('load', 'load@') and a[1][1][0] == 'field' and a[1][1][1] == e:
                 if v[0] in ('load', 'load@') and v[1][0] == 'field' and v[1][1] == e:
                     un.add((a[1][1][2], a[2], v[1][2]))
+                    un_stores[(a[1][1][2], a[2], v[1][2])] = i
             if a[0] == 'field' and a[1] == e and a[2] == 'left' and is_field_load(v, 'next_free'):
                 push = True
             if a[0] == 'field' and a[2] == 'next_free' and v == e:
@@ -307,6 +309,25 @@ def r_dlink(ctx, prog):
                 if a2[0] == 'field' and a2[2] == 'next_free' and v2 == ge:
                     nf = True
         want = set([('up', 'down', 'down'), ('down', 'up', 'up'), ('left', 'right', 'right'), ('right', 'left', 'left')])
+        # all four neighbour repairs happen together: once the first one ran, no return is reachable without the others
+        # (a repair made conditional -- "the neighbour is the header, nothing to do" -- leaves last_in_col / last_in_row stale)
+        if want <= un:
+            sts = [un_stores[w] for w in want]
+            first = [x for x in sts if all(f.dominates(x, y) or x is y for y in sts)]
+            cond = None
+            if first:
+                for y in sts:
+                    if y.block is first[0].block:
+                        continue
+                    rem = [(y.block.id, s2.id) for s2 in y.block.succs]
+                    r2 = f.reachable(first[0].block, removed=rem)
+                    if any(rt.block.id in r2 for rt in f.rets()) and y.block.id != first[0].block.id:
+                        cond = y
+            else:
+                cond = sts[0]
+            ctx.instance(R, cond is None, cond or f, '%s:unlink-unconditional' % name,
+                         '%s repairs one neighbour link only conditionally: after deleting the first / last entry of a row or column '
+                         'the header keeps pointing at the freed entry' % name)
         ctx.instance(R, want <= un and push and nf, f, '%s:unlink' % name,
                      '%s must unlink the entry from its row and its column (found %s) and push it on the free list (%s, %s)' %
                      (name, sorted(un), push, nf))
@@ -650,3 +671,73 @@ def r_solver_ranges(ctx, prog):
     ilp, ilr = role(BS, rs, 'column', lambda l: l.parent is olp)
     ctx.instance(R, up(ilr, lambda t: lin_eq(t, ('bin', 'add', idx, ('const', 1))), ncols), ilr.cmp, 'backward:columns',
                  'for row i the back substitution does not scan the columns i+1..n_cols-1')
+
+
+# ------------------------------------------------------------------ R-CONVERT-RANGE
+def r_convert_range(ctx, prog):
+    """The sparse <-> dense conversions visit every row (and, dense -> sparse, every column) of the source matrix: the counting
+    loops run from 0 to the source's own dimension.  A conversion that stops one row short drops an equation of the system the ML
+    decoder hands to the solver -- only noticed when no equation is to spare."""
+    from .rules_own import _lin
+    R = 'R-CONVERT-RANGE'
+    ctx.rule(R, 'of_mod2sparse_to_dense / of_mod2dense_to_sparse iterate over all rows (and columns) of the source matrix', floor=1)
+    for name, dims in (('of_mod2sparse_to_dense', ('n_rows',)), ('of_mod2dense_to_sparse', ('n_rows', 'n_cols'))):
+        f = prog.need_fn(name, R)
+        tt = Terms(f)
+        lrs = []
+        for lp in f.loops.values():
+            lr = loop_range(f, lp, tt)
+            if lr is not None:
+                lrs.append((lp, lr))
+        for depth, dim in enumerate(dims, 1):
+            cand = [(lp, lr) for lp, lr in lrs if lp.depth == depth]
+            ctx.need(cand, R, '%s: no counting loop at depth %d (cannot decide)' % (name, depth))
+            lp, lr = cand[0]
+            want = ('load', ('field', ('param', 0), dim))
+            b = lr.bound
+            okb = b[0] in ('load', 'load@') and b[1][0] == 'field' and b[1][1] == ('param', 0) and b[1][2] == dim
+            ok = okb and lr.start == ('const', 0) and lr.step == 1 and lr.pred in ('ult', 'slt')
+            ctx.instance(R, ok, lr.cmp, '%s:%s' % (name, dim),
+                         '%s visits "%s" of the source matrix; it must visit 0 .. %s-1' % (name, lr.describe(), dim))
+
+
+# ------------------------------------------------------------------ R-HINT-ORDER
+def r_hint_order(ctx, prog):
+    """of_mod2sparse_insert_opt starts its search in the destination column at the entry remembered from the previous insertion
+    into that column: it links the new entry correctly only if the destination rows arrive in increasing order.  Every call
+    must therefore pass a row that provably increases: an ascending loop counter, or the row of an entry reached by walking a
+    column list downwards."""
+    R = 'R-HINT-ORDER'
+    ctx.rule(R, 'every call of the hinted insertion of_mod2sparse_insert_opt passes a destination row that increases from call to '
+             'call (ascending loop counter, or the row of an entry reached through ->down)', floor=1)
+    n = 0
+    for f in prog.all_functions:
+        cs = [c for c in f.calls('of_mod2sparse_insert_opt')]
+        if not cs:
+            continue
+        tt = Terms(f)
+        for c in cs:
+            n += 1
+            row = tt.term(c.args[1])
+            while row[0] == 'trunc':
+                row = row[2]
+            ok = False
+            why = show(row)[:60]
+            if row[0] == 'phi':
+                for lp in f.loops.values():
+                    lr = loop_range(f, lp, tt)
+                    if lr is not None and tt.term(_V(lr.iv)) == row and lr.step > 0:
+                        ok = True
+            if row[0] in ('load', 'load@') and row[1][0] == 'field' and row[1][2] == 'row' and row[1][1][0] == 'phi':
+                ph = f.insts.get(row[1][1][1])
+                if ph is not None and ph.op == 'phi':
+                    lpp = f.loops.get(ph.block.id)          # the walk's own loop: ph is its header phi
+                    inc = [tt.term(v) for b, v in ph.incoming if lpp is not None and b in lpp.blocks]
+                    if inc and all(v[0] in ('load', 'load@') and v[1][0] == 'field' and v[1][2] == 'down' and v[1][1] == ('phi', ph.id)
+                                   for v in inc):
+                        ok = True
+            ctx.instance(R, ok, c, 'hint:%s' % f.name,
+                         '%s calls the hinted insertion with destination row %s, which is not known to increase from call to call: an '
+                         'entry is linked out of order and column traversals miss it' % (f.name, why))
+    if n == 0:
+        ctx.ok(R, None, 'hint:none', 'the hinted insertion is not used')
